@@ -4,7 +4,7 @@
    template interpolation `template[escape v]`.  Definitions only.
 
    [cfg] parametrises the six places where /repo was repaired (the 'fix:'
-   commits 86103a9, baf43a1, afcdc3a, 8fdddd4, 74c3a15, 7fe5e6f, ae5d17b).  [cfg_now]
+   commits 86103a9, baf43a1, afcdc3a, 8fdddd4, 74c3a15, 7fe5e6f, ae5d17b, 44b4e9c).  [cfg_now]
    is the code that is in /repo now and the only setting [run_C18] and the
    headline theorems use; [cfg_pinned] is the pinned snapshot, kept only for
    the `_pinned_refuted` theorems that document what was wrong. *)
@@ -20,10 +20,11 @@ Record cfg := mkcfg {
   cfg_html_xmlsafe : bool;  (* html_escape replaces characters XML cannot carry by '?' (7fe5e6f) *)
   cfg_zw_loop : bool;       (* after \002 the coroutine returns to the top of its loop (afcdc3a) *)
   cfg_attr_isspace : bool;  (* HTML fg/bg guard rejects every str.isspace character (8fdddd4) *)
-  cfg_attr_bracket : bool   (* HTML fg/bg guard rejects '[' (ae5d17b) *)
+  cfg_attr_bracket : bool;  (* HTML fg/bg guard rejects '[' (ae5d17b) *)
+  cfg_html_cr : bool        (* html_escape writes \r as the character reference &#13; (44b4e9c) *)
 }.
-Definition cfg_pinned : cfg := mkcfg false false false false false false false.
-Definition cfg_now : cfg := mkcfg true true true true true true true.
+Definition cfg_pinned : cfg := mkcfg false false false false false false false false.
+Definition cfg_now : cfg := mkcfg true true true true true true true true.
 
 Inductive res (T : Type) : Type :=
 | Ok (x : T)
